@@ -71,7 +71,46 @@ def ord_int_sites(prog, prefix='yabgp.message'):
     return out
 
 
+def capability_overwrites(prog):
+    """Capability branches of Open.parse that store a *list* under a key and (re)create the list
+    unconditionally: a second capability TLV of the same code then overwrites the first.
+    -> list of (key text, lineno)"""
+    f = prog.func('yabgp.message.open.Open.parse')
+    out = []
+    par = {}
+    for n in ast.walk(f.node):
+        for c in ast.iter_child_nodes(n):
+            par[c] = n
+    # keys that receive .append(...) somewhere = list-valued capabilities
+    listkeys = set()
+    for n in ast.walk(f.node):
+        if isinstance(n, ast.Call) and isinstance(n.func, ast.Attribute) and n.func.attr == 'append' and \
+                isinstance(n.func.value, ast.Subscript) and src_of(n.func.value.value) == 'self.capa_dict':
+            listkeys.add(src_of(n.func.value.slice))
+    for n in ast.walk(f.node):
+        if isinstance(n, ast.Assign) and isinstance(n.targets[0], ast.Subscript) and \
+                src_of(n.targets[0].value) == 'self.capa_dict':
+            k = src_of(n.targets[0].slice)
+            is_list = isinstance(n.value, ast.List) or k in listkeys or isinstance(n.value, ast.Name)
+            if not is_list or isinstance(n.value, ast.Constant):
+                continue
+            if not (isinstance(n.value, ast.List) or isinstance(n.value, ast.Name)):
+                continue
+            guarded = False
+            cur = n
+            while cur in par:
+                p = par[cur]
+                if isinstance(p, ast.If) and ('%s not in self.capa_dict' % k) in src_of(p.test) and cur in p.body:
+                    guarded = True
+                cur = p
+            if not guarded:
+                out.append((k, n.lineno))
+    return f, out
+
+
 def check(prog, rep, tier):
+    rep.rule('R15.f', 'OPEN capabilities are accumulated: a list-valued capability entry is created only when '
+                      'absent, so several capability TLVs of one code (RFC 5492 allows that) add up')
     rep.rule('R15.a', 'window discipline: inside a list-decoder loop no element decoder is handed an unbounded '
                       'suffix of the cursor when the element\'s extent is already known from its own length field')
     rep.rule('R15.b', 'no whole-buffer predicate: inside a list-decoder loop the cursor as a whole is never '
@@ -253,6 +292,20 @@ def check(prog, rep, tier):
     else:
         rep.bad('R15.d', 'keyed-by-type', file=pa.file, line=pa.node.lineno, func=pa.qualname,
                 found='decoded attributes are not stored under their type code', key='keyed-by-type')
+
+    # ---------------------------------------------------------------- R15.f
+    f, outs = capability_overwrites(prog)
+    for k, line in outs:
+        key = 'cap-overwrite:%s' % k
+        rep.bad('R15.f', key, file=f.file, line=line, func=f.qualname,
+                found='capa_dict[%s] is (re)created for every capability TLV of that code: a second TLV '
+                      'overwrites what the first one contributed' % k,
+                expected='create the list only if the key is absent', key=key)
+    if not outs:
+        rep.ok('R15.f', 'cap-accumulate', file=f.file, line=f.node.lineno)
+    elif not any(i.rule == 'R15.f' and i.verdict == 'ok' for i in rep.instances):
+        rep.ok('R15.f', 'cap-accumulate:checked', file=f.file, line=f.node.lineno, nontrivial=False,
+               found='%d list-valued capability stores examined' % len(outs))
 
     # ---------------------------------------------------------------- R15.e
     sites = ord_int_sites(prog)
